@@ -802,7 +802,7 @@ func specMatch(got, want interface{}) bool {
 			return true
 		}
 		f, ok := got.(float64)
-		return ok && !math.IsNaN(f) && !math.IsInf(f, 0)
+		return ok && verifFinite(f)
 	case specRef:
 		return false
 	case []interface{}:
@@ -882,7 +882,7 @@ func verifIsJSON(v interface{}) bool {
 	case nil, bool, string:
 		return true
 	case float64:
-		return !math.IsNaN(x) && !math.IsInf(x, 0)
+		return verifFinite(x)
 	case []interface{}:
 		if x == nil {
 			return false
